@@ -160,7 +160,7 @@ static const char *varnames[] = {
   "d1", "d2", "d3", "d4",
   "s1", "s2", "s3", "s4",
   "s5", "s6", "s7", "s8",
-  "a1", "a2", "a3", "d4",
+  "a1", "a2", "a3", "a4",
   "c1", "c2", "c3", "c4",
   "c5", "c6", "c7", "c8",
   "p1", "p2", "p3", "p4",
